@@ -258,6 +258,14 @@ def rule_E2_pipeline(tree: Tree) -> RuleResult:
                 if dotted(base) == "keylog":
                     shrink.append(src(n.ast, 60))
     r.ob(not shrink, Finding("E2b", "main:run:keylog-append-only", f"inside the loops of run() the shared key list must only be extended; found {shrink[:3]}", run.module.line(run.node)))
+    # the block text is decoded tolerantly: key lines are ASCII, but a block may contain other bytes (a comment with an umlaut); a strict decode raises, the
+    # per-packet handler swallows the exception and every secret of the block is lost — while the same log given with -s works
+    r.instances += 1
+    decs = [c for c in body_walk(run.node) if isinstance(c, ast.Call) and isinstance(c.func, ast.Attribute) and c.func.attr == "decode" and dotted(c.func.value) == "buf"]
+    okd = len(decs) == 1 and (any(k.arg == "errors" and try_fold(k.value) in ("replace", "ignore", "surrogateescape", "backslashreplace") for k in decs[0].keywords)
+                              or (len(decs[0].args) > 1 and try_fold(decs[0].args[1]) in ("replace", "ignore", "surrogateescape", "backslashreplace")))
+    r.ob(okd, Finding("E2b", "main:run:dsb-decode-tolerant", "the DSB payload must be decoded with an error handler (errors='replace'): one non-ASCII byte anywhere in the block "
+                                                             "otherwise discards all of its secrets", run.module.line(run.node)))
     # both ingestion paths in main.run go through get_keys_from_string
     r.instances += 1
     ext = []
